@@ -17,6 +17,31 @@ import (
 type ledgerEntry struct {
 	Claimed   []string          `json:"claimed"`
 	Unclaimed map[string]string `json:"unclaimed,omitempty"`
+	// claimed groups that come from a `sweep-package` directive (functions without a contract of their own). Their
+	// names are made of the source text of the index/slice expression, so a harmless rename makes a name vanish:
+	// a vanished package-sweep name is recorded in the evidence, not reported as a violation (a failing one is).
+	Sweep []string `json:"sweep,omitempty"`
+	// per "function/kind" of package-sweep functions: how many obligation instances discharged on the reference tree
+	SweepOK map[string]int `json:"sweep_ok,omitempty"`
+}
+
+func sweepBucket(name string) string {
+	fn, rest, _ := strings.Cut(name, "/")
+	kind, _, _ := strings.Cut(rest, ":")
+	return fn + "/" + kind
+}
+
+func sweepOKCounts(all []*Obligation, unclaimed map[string]string) map[string]int {
+	m := map[string]int{}
+	for _, ob := range all {
+		if _, un := unclaimed[ob.group()]; un {
+			continue // instances of an unclaimed group are not run in the quick tier
+		}
+		if ob.Cheap && !ob.Auto && !ob.Smoke && !ob.kfUnrestricted && obOK(ob) {
+			m[sweepBucket(ob.Name)]++
+		}
+	}
+	return m
 }
 
 type Ledger map[string]*ledgerEntry
@@ -96,6 +121,71 @@ func obOK(ob *Obligation) bool {
 	return ob.Result == "unsat"
 }
 
+// sweepRenameFailures handles package-sweep obligations whose names changed. Package-sweep names are made of source
+// text, so a vanished claimed name alone is not a violation (harmless rename). But per (function, kind): when a claimed
+// name vanished or fewer instances discharge than on the reference tree (ledger sweep_ok), and MORE new names fail
+// than unclaimed names vanished (i.e. the failures cannot all be renamed formerly-unclaimed obligations), the change
+// turned a proved expression into an unproved one: those new failing obligations are returned and reported as
+// violations.
+func sweepRenameFailures(ent *ledgerEntry, isGenerated func(string) bool, all []*Obligation) []*Obligation {
+	if ent == nil || len(ent.Sweep) == 0 {
+		return nil
+	}
+	type bucket struct {
+		goneClaimed, goneUnclaimed int
+		newFail                    []*Obligation
+	}
+	buckets := map[string]*bucket{}
+	get := func(name string) *bucket {
+		k := sweepBucket(name)
+		if buckets[k] == nil {
+			buckets[k] = &bucket{}
+		}
+		return buckets[k]
+	}
+	claimed := map[string]bool{}
+	for _, n := range ent.Claimed {
+		claimed[n] = true
+	}
+	for _, n := range ent.Sweep {
+		if !isGenerated(n) {
+			get(n).goneClaimed++
+		}
+	}
+	for n := range ent.Unclaimed {
+		if !isGenerated(n) {
+			get(n).goneUnclaimed++
+		}
+	}
+	seen := map[string]bool{}
+	for _, ob := range all {
+		if !ob.Cheap || ob.Auto || ob.Smoke || ob.kfUnrestricted || obOK(ob) || ob.Result == "skipped-unclaimed" {
+			continue
+		}
+		g := ob.group()
+		if _, un := ent.Unclaimed[g]; un || claimed[g] || seen[g] {
+			continue
+		}
+		seen[g] = true
+		b := get(g)
+		b.newFail = append(b.newFail, ob)
+	}
+	var keys []string
+	for k := range buckets {
+		keys = append(keys, k)
+	}
+	sort.Strings(keys)
+	var out []*Obligation
+	okNow := sweepOKCounts(all, ent.Unclaimed)
+	for _, k := range keys {
+		b := buckets[k]
+		if (b.goneClaimed >= 1 || okNow[k] < ent.SweepOK[k]) && len(b.newFail) > b.goneUnclaimed {
+			out = append(out, b.newFail...)
+		}
+	}
+	return out
+}
+
 func finishCheck(o checkOpts, results []*funcResult, e *Engine, problems []string, start time.Time, update bool) int {
 	ledger := loadLedger(o.verif)
 	ent := ledger[o.prop]
@@ -162,9 +252,16 @@ func finishCheck(o checkOpts, results []*funcResult, e *Engine, problems []strin
 				ne.Unclaimed[g] = "not claimed: " + dep
 			} else {
 				ne.Claimed = append(ne.Claimed, g)
+				if ob := generated[g]; ob != nil && ob.Cheap {
+					ne.Sweep = append(ne.Sweep, g)
+				}
 			}
 		}
 		sort.Strings(ne.Claimed)
+		sort.Strings(ne.Sweep)
+		if len(ne.Sweep) > 0 {
+			ne.SweepOK = sweepOKCounts(all, ne.Unclaimed)
+		}
 		ledger[o.prop] = ne
 		if err := saveLedger(o.verif, ledger); err != nil {
 			fmt.Fprintln(os.Stderr, err)
@@ -242,11 +339,26 @@ func finishCheck(o checkOpts, results []*funcResult, e *Engine, problems []strin
 			undecidedNew = append(undecidedNew, ob.Name+" ("+ob.Result+")")
 		}
 	}
+	sweepName := map[string]bool{}
+	for _, n := range ent.Sweep {
+		sweepName[n] = true
+	}
+	sweepGone := []string{}
 	for n := range claimed {
 		if _, ok := generated[n]; !ok {
+			if sweepName[n] {
+				sweepGone = append(sweepGone, n)
+				continue
+			}
 			nClaimed++
 			viols = append(viols, &violation{Obligation: n, Reason: "claimed obligation was not generated (function, loop or call anchor no longer matches)", Property: o.prop})
 		}
+	}
+	reported := map[string]bool{}
+	for _, ob := range sweepRenameFailures(ent, func(n string) bool { _, ok := generated[n]; return ok }, all) {
+		nClaimed++
+		reported[ob.Name] = true
+		viols = append(viols, &violation{Obligation: ob.Name, Reason: "package sweep: a claimed " + ob.Kind + " obligation of this function is no longer generated and this new one does not discharge (" + ob.Result + "): the changed expression is no longer proved safe", Pos: ob.Pos, Solver: ob.Solver, Status: ob.Result, Output: trunc(ob.Output, 4000), SmtFile: ob.SmtFile, Function: ob.Fn, Property: o.prop})
 	}
 	// contract clauses that cannot be bound or evaluated on the current tree (renamed parameter, vanished field or
 	// function, changed signature): one violation per function, listing the clauses
@@ -273,7 +385,11 @@ func finishCheck(o checkOpts, results []*funcResult, e *Engine, problems []strin
 
 	// new failing obligations: violation only when the counterexample replays on the real code
 	for _, ob := range all {
-		if claimed[ob.group()] || ob.kfUnrestricted || obOK(ob) || ob.Smoke || ob.Auto {
+		if claimed[ob.group()] || ob.kfUnrestricted || obOK(ob) || ob.Smoke || ob.Auto || reported[ob.Name] {
+			continue
+		}
+		if ob.Cheap && ob.Result != "sat" {
+			// package sweep, focused query only: there is no model to replay
 			continue
 		}
 		if _, un := ent.Unclaimed[ob.group()]; un {
@@ -339,6 +455,13 @@ func finishCheck(o checkOpts, results []*funcResult, e *Engine, problems []strin
 		}
 	}
 	sort.Strings(undecidedNew)
+	sort.Strings(sweepGone)
+	retried := []string{}
+	for _, ob := range all {
+		if ob.Retried {
+			retried = append(retried, fmt.Sprintf("%s -> %s (%s, %d ms)", ob.Name, ob.Result, ob.Solver, ob.Ms))
+		}
+	}
 	var unclaimedList []string
 	for n, why := range ent.Unclaimed {
 		unclaimedList = append(unclaimedList, n+" — "+why)
@@ -364,6 +487,9 @@ func finishCheck(o checkOpts, results []*funcResult, e *Engine, problems []strin
 		"trusted_contracts_used": keys(trusted),
 		"known_findings":         knownLines,
 		"two_solver_agreement":   o.agree,
+		"retried_with_3x_limit":  retried,
+		"package_sweep_names_no_longer_generated": sweepGone,
+		"package_sweep_functions_not_analysable":  sweepSkipped,
 	}
 	// bounded differential validation of assumed library contracts, produced by bin/validate_externals (./check)
 	if data, err := os.ReadFile(filepath.Join(o.verif, "work", "bounded_"+o.prop+".json")); err == nil {
